@@ -35,7 +35,15 @@ def run(tier, seed):
             iadj = {"I": {s_: (None if r.random() < 0.4 else {"mul": gen.frac(r)}) for s_ in strata}} if r.random() < 0.5 else {}
             ops.append({"op": "strat", "kind": "plain", "name": nm, "strata": strata, "comps": ["S", "I", "R"],
                         "fadj": [], "iadj": iadj, "mix": mix})
-        progs.append({"times": ["0", "2", "1"], "comps": ["S", "I", "R"], "inf": ["I"], "ops": ops,
+        if i % 2 == 0:
+            # people move between mixing categories (closed population: nothing enters or leaves the model)
+            cross_nm = names[0]
+            st0 = gen.STRATA_POOL[cross_nm][:2]
+            ops.append({"op": "flow", "kind": "transition", "name": "move", "param": gen.frac(r), "src": "S", "dst": "S",
+                        "sf": {cross_nm: st0[0]}, "df": {cross_nm: st0[1]}})
+            ops.append({"op": "flow", "kind": "transition", "name": "moveI", "param": gen.frac(r), "src": "I", "dst": "I",
+                        "sf": {cross_nm: st0[1]}, "df": {cross_nm: st0[0]}})
+        progs.append({"times": ["0", r.choice(["2", "3", "4"]), "1"], "comps": ["S", "I", "R"], "inf": ["I"], "ops": ops,
                       "meta": {"flows": [kind_inf, "transition"], "strats": ["plain"] * len(names), "mix": len(names)},
                       "nonlinear": True})
     out = []
@@ -51,7 +59,8 @@ def run(tier, seed):
             x = fix_domain(p, st["comps"], g.state(nc, "pos"))
             t = gen.dy(g.rng, 0, 24, 2)
             obs.append({"obs": "onestep", "params": pv, "t": t, "x": x})
-            obs.append({"obs": "oracle", "name": "c05", "params": pv, "t": t, "x": x, "program": checklib.strip_meta(dict(p, obs=[]))})
+            obs.append({"obs": "oracle", "name": "c05", "params": pv, "t": t, "x": x, "traj": k == 0,
+                        "program": checklib.strip_meta(dict(p, obs=[]))})
         p["obs"] = obs
         out.append(p)
     ex = checklib.explore(out, keys=KEYS, per_prog_timeout=20.0)
